@@ -3,7 +3,7 @@ from pyvc.contracts import contract, lemma, T
 LT = "flexstack.geonet.basic_header:LT"
 M = "flexstack.geonet.basic_header"
 
-contract(f"{M}:LT.set_value_in_millis", props=["C20"], mode="int", spec_module="spec_geonet",
+contract(f"{M}:LT.set_value_in_millis", props=["C20", "C02"], mode="int", spec_module="spec_geonet",
          shapes={"self": T.rec(LT, multiplier=T.int(0, 63)), "value": T.int()},
          requires=["value >= 0"],
          ensures={
